@@ -21,8 +21,8 @@ EXPLANATION = ('Per residue layout within the bound (sizes, kinds, repeated / al
                'are checked on the loaded object.  The byte-offset arithmetic of seek_atom is decided for all integers in C13 (kernel/offsets).')
 BOUNDS = {'quick': {'layouts': 'all sequences of 1..4 residues over 4 residue kinds (A:1 atom, A:2 atoms (same name, other size), B:2, C:3) with fresh residue numbers, '
                                'plus repeated-number variants; velocities on/off for length <= 2', 'cursor': 'every atom position (symbolic)', 'index': 'every k in [-len, len) (symbolic)',
-                    'slices': 'every 0 <= a <= b <= len (symbolic)'},
-          'thorough': {'layouts': 'all sequences of 1..5 residues over the 4 kinds; 6 residues alternating', 'slices': 'with negative bounds and steps 1, 2'}}
+                    'slices': 'every 0 <= a <= b <= len (symbolic); for the 24 layouts of 3 residues of pairwise different kinds also every [a:b:step] with a, b in [-len-1, len+1], step in {-3,-2,-1,2,3}'},
+          'thorough': {'layouts': 'all sequences of 1..5 residues over the 4 kinds; 6 residues alternating', 'slices': 'with negative bounds and steps 1, 2; general [a:b:step] for layouts of <= 4 residues'}}
 OUTSIDE = ['files with hundreds of residues and access sequences of length 200 (covered through the inductive step: any cursor state + one access)',
            'coordinates are concrete decimal numbers (they are text in the file)']
 STUBS = ['file object -> in-memory text file (GroFile officially accepts an opened file)']
@@ -114,10 +114,15 @@ def run_case(case):
         records.append(rec)
         if sg is None:
             continue
-        cv, kv, av, bv = z3.Int('cursor'), z3.Int('k'), z3.Int('a'), z3.Int('b')
+        cv, kv, av, bv, sv = z3.Int('cursor'), z3.Int('k'), z3.Int('a'), z3.Int('b'), z3.Int('step')
+        STEPS = [-3, -2, -1, 2, 3]
 
         def run(ctx, mode):
-            ctx.assume(z3.And(cv >= 0, cv <= nat))
+            if mode == 'slice3':
+                # general slices [a:b:step]: bounds anywhere in [-len-1, len+1], steps -3, -2, -1, 2, 3 (stale cursor at atom 0)
+                ctx.assume(cv == 0)
+            else:
+                ctx.assume(z3.And(cv >= 0, cv <= nat))
             c = SymInt(cv, 0, nat).concretize()
             # history before the access under test: an indexed fetch, a partial iteration, then an arbitrary stale cursor
             try:
@@ -137,6 +142,15 @@ def run_case(case):
                     return c, k, res_tuple(sg[k])
                 except Exception as e:
                     return c, k, 'raised %s' % type(e).__name__
+            if mode == 'slice3':
+                ctx.assume(z3.And(av >= -nres - 1, av <= nres + 1, bv >= -nres - 1, bv <= nres + 1, sv >= 0, sv < len(STEPS)))
+                a = SymInt(av, -nres - 1, nres + 1).concretize()
+                b = SymInt(bv, -nres - 1, nres + 1).concretize()
+                stp = STEPS[SymInt(sv, 0, len(STEPS) - 1).concretize()]
+                try:
+                    return c, (a, b, stp), [res_tuple(r) for r in sg[a:b:stp]]
+                except Exception as e:
+                    return c, (a, b, stp), 'raised %s' % type(e).__name__
             if mode == 'oob':
                 ctx.assume(z3.Or(kv == nres, kv == -nres - 1))
                 k = SymInt(kv, -nres - 1, nres).concretize()
@@ -153,7 +167,7 @@ def run_case(case):
             except Exception as e:
                 return c, (a, b), 'raised %s' % type(e).__name__
 
-        for mode in ('index', 'slice', 'oob'):
+        for mode in ('index', 'slice', 'oob') + (('slice3',) if ((nres <= 4 and len(set(layout)) >= min(nres, 3)) if thorough else (nres == 3 and len(set(layout)) == 3 and not layout_spec.startswith('='))) else ()):
             cover = []
             bad = None
             for ctx, res, exc in explore(lambda ctx: run(ctx, mode), max_paths=20000):
@@ -166,6 +180,8 @@ def run_case(case):
                     good = got == expected[k]
                 elif mode == 'oob':
                     good = got == 'IndexError'
+                elif mode == 'slice3':
+                    good = got == expected[k[0]:k[1]:k[2]]
                 else:
                     good = got == expected[k[0]:k[1]]
                 if not good and bad is None:
@@ -174,17 +190,22 @@ def run_case(case):
             nontrivial.append('%s/%s' % (layout, mode))
             what = {'index': 'residue k (any k in [-len, len)) after any stale cursor = k-th iterated residue',
                     'slice': 'slice [a:b] after any stale cursor = iterated residues a..b-1',
+                    'slice3': 'slice [a:b:step], a, b in [-len-1, len+1], step in {-3, -2, -1, 2, 3}, = the same slice of the iterated residues',
                     'oob': 'index len or -len-1 raises IndexError'}[mode]
             rec = {'name': '%s: %s (%d paths)' % (layout, what, len(cover)), 'status': 'unsat' if bad is None else 'sat', 'secs': 0}
             if bad is not None and bad[0] != 'abort':
-                rec['witness'] = {'kind': 'access', 'layout': layout_spec, 'vel': case['vel'], 'cursor': bad[0], 'op': mode, 'arg': bad[1]}
+                rec['witness'] = {'kind': 'access', 'layout': layout_spec, 'vel': case['vel'], 'cursor': bad[0], 'op': mode, 'arg': list(bad[1]) if isinstance(bad[1], tuple) else bad[1]}
             elif bad is not None:
                 rec['status'] = 'error'; rec['detail'] = bad[1]
             records.append(rec)
             # coverage of the symbolic ranges by the explored paths
             s = z3.Solver(); s.set('timeout', cap)
             rng = [cv >= 0, cv <= nat] + ([kv >= -nres, kv < nres] if mode == 'index' else
-                                          [z3.Or(kv == nres, kv == -nres - 1)] if mode == 'oob' else [av >= 0, av <= bv, bv <= nres])
+                                          [z3.Or(kv == nres, kv == -nres - 1)] if mode == 'oob' else
+                                          [av >= -nres - 1, av <= nres + 1, bv >= -nres - 1, bv <= nres + 1, sv >= 0, sv < len(STEPS)] if mode == 'slice3' else
+                                          [av >= 0, av <= bv, bv <= nres])
+            if mode == 'slice3':
+                rng[0:2] = [cv == 0]
             s.add(*rng); s.add(z3.Not(z3.Or(*cover)))
             r = str(s.check())
             records.append({'name': '%s: the explored paths exhaust the symbolic %s/cursor ranges' % (layout, mode),
